@@ -36,6 +36,14 @@ PROPERTIES = {
         explanation="representation invariant idmap_wf as pre/postcondition of every mutating operation of the generic StoreFor trait",
         assumptions=["accessor contracts (store/store_mut/idmap/idmap_mut are plain field accessors) and callback contracts hold for each implementing type"],
     ),
+    'C10': dict(
+        units=['u_dataset'],
+        level_text="Deductive proof (Verus/Z3) over the real AnnotationDataSet code that the key -> data reverse index is exact at all times: the StoreCallbacks implementations for AnnotationData and DataKey (inserted / preremove) re-establish 'row k lists exactly the live data with key k, each once' around every insertion and removal, removing a key clears only its own row, and the generic StoreFor::insert/remove (proved once in u_store, instantiated here on the real accessors) keep each key and each id unique.",
+        level_note="Trusted: DataValue equality is an uninterpreted relation (veq); random id generation (generate_id); the changed-flag write (mark_changed) is dropped; HashMap<String,H> model; vx_position. Not decided: DataValue::test comparison semantics, find_data iterators, insert_data's BuildItem plumbing.",
+        design_ref='DESIGN.md §7.9',
+        explanation="dataset invariant kd_wf as a pre/postcondition pair of the real callbacks",
+        assumptions=["insert_data / data_by_value call the contracted primitives as read (not verified)"],
+    ),
 }
 
 NOT_APPLICABLE = {
